@@ -1,6 +1,9 @@
 package props
 
-import "verif/sim/model"
+import (
+	"verif/sim/model"
+	"verif/sim/sched"
+)
 
 // SelfTest is a start-up check of a model or of a simulator assumption; a
 // failure is framework trouble (exit 2), never a violation.
@@ -12,5 +15,6 @@ type SelfTest struct {
 
 // SelfTests lists them.
 var SelfTests = []SelfTest{
+	{Name: "mutex-layout", For: map[string]bool{"C20": true}, Run: sched.SelfTestMutexLayout},
 	{Name: "bloom-model-vectors", For: map[string]bool{"C09": true, "C10": true, "C20": true}, Run: model.SelfTestBloom},
 }
